@@ -376,8 +376,9 @@ class World:
             key_ = f'C16/run-{s.status}'
             if s.status == 'deadlock':
                 # mechanism: which operation holds the communicator lock while it waits (for the access lock of a reconnect)
-                # the poll thread waits for the communicator lock: who holds it?
-                held = [o for n, _, o in s.lock_waits if '__pollThread' in n]
+                # somebody waits for the communicator lock: who holds it (while waiting himself for the access lock)?
+                lid = id(getattr(info.get('io'), '_lock', None))
+                held = [o for n, i_, o in s.lock_waits if i_ == lid]
                 oname = (held[0] if held else None) or 'nobody'
                 if oname.startswith('caller'):
                     cur = [v['op'] for k, v in sorted(results.items()) if k[0] == int(oname[6:]) and 't_ret' not in v]
